@@ -3,6 +3,8 @@ package chainx
 import (
 	"time"
 
+	"go.sia.tech/core/consensus"
+
 	"go.sia.tech/core/types"
 	"verifharness/vh"
 )
@@ -34,10 +36,16 @@ func LongChain(rng *vh.RNG, net *Net, n int) *Tree {
 // of blocks (retarget every 500 blocks from the timestamp of the block min(1000, height) back —
 // the only place the store's AncestorTimestamp walk decides anything), v1 blocks only.
 func NewPreOakNet(rng *vh.RNG) *Net {
+	return NewPreOakNetAt(rng, 50000)
+}
+
+// NewPreOakNetAt is NewPreOakNet with the Oak hardfork at the given height (a multiple of 500
+// makes the LAST pre-Oak retarget coincide with the hardfork height itself).
+func NewPreOakNetAt(rng *vh.RNG, oak uint64) *Net {
 	net := newNet(rng, 60000, 61000, 3, false)
 	n := net.N
-	n.HardforkOak.Height = 50000
-	n.HardforkOak.FixHeight = 50000
+	n.HardforkOak.Height = oak
+	n.HardforkOak.FixHeight = oak
 	n.HardforkASIC.Height = 50000
 	n.HardforkFoundation.Height = 50000
 	return net
@@ -56,6 +64,16 @@ func LongBranch(rng *vh.RNG, t *Tree, parent, n, dt int) int {
 	// a distinct miner address per branch keeps sibling v1 blocks with equal timestamps distinct
 	var miner types.Address
 	rng.Bytes(miner[:])
+	// header-level reference states are computed here, NOT read back from the node: ApplyHeader on
+	// the parent's reference with the timestamp of the ancestor max(0, parent height - 1000), found
+	// by walking this tree (the store's AncestorTimestamp is part of what is being checked)
+	ancTs := func(parent int) time.Time {
+		x := parent
+		for i := 0; i < 1000 && x != 0; i++ {
+			x = t.Blocks[x].Parent
+		}
+		return t.Blocks[x].Block.Timestamp
+	}
 	for i := 0; i < n; i++ {
 		cs := nd.CM.TipState()
 		blk := t.Net.assemble(cs, t.Blocks[parent].Block.Timestamp.Add(time.Duration(dt)*time.Second), miner, nil, nil, rng.U64())
@@ -63,8 +81,9 @@ func LongBranch(rng *vh.RNG, t *Tree, parent, n, dt int) int {
 			panic("LongBranch: " + err.Error())
 		}
 		full := nd.CM.TipState()
+		ref := consensus.ApplyHeader(t.Blocks[parent].State, blk.Header(), ancTs(parent))
 		b := &B{ID: len(t.Blocks), Block: blk, Parent: parent, Height: t.Blocks[parent].Height + 1, HdrOk: true, BodyOk: true,
-			V2: blk.V2 != nil, Work: WorkInt(full.TotalWork), Diff: WorkInt(full.Difficulty), State: full, Full: full}
+			V2: blk.V2 != nil, Work: WorkInt(ref.TotalWork), Diff: WorkInt(ref.Difficulty), State: ref, Full: full}
 		t.Blocks = append(t.Blocks, b)
 		t.byHash[blk.ID()] = b.ID
 		parent = b.ID
